@@ -197,6 +197,22 @@ Theorem C18_fs_restart_keeps_objects : forall D objs0 in1 sched1 in2 sched2 k c,
 Proof. exact fs_restart_keeps_objects. Qed.
 Print Assumptions C18_fs_restart_keeps_objects.
 
+(** The input reader is consumed from where it stands: for a reader handed in
+    at offset [k] of an underlying stream [whole] (a *bytes.Reader, *os.File,
+    *io.SectionReader ... after a header was read), with no failing system
+    call, the key returned is that of [skipn k whole] — what could be read
+    from the current position — and that object is there. *)
+Theorem C18_fs_create_from_current_position : forall D objs0 inputs sched tid t whole k r,
+  (forall x, is_bytes (D x) /\ length (D x) = 32%nat) ->
+  wf_objs D objs0 -> fault_free sched ->
+  nth_error (sthr (runs D objs0 inputs sched)) tid = Some t ->
+  nth_error inputs tid = Some (reader_at whole k) ->
+  res t = Some r ->
+  r = ROk (Hk D (skipn k whole)) /\
+  lookup_key (Hk D (skipn k whole)) (objs (sfs (runs D objs0 inputs sched))) <> None.
+Proof. exact fs_create_from_current_position. Qed.
+Print Assumptions C18_fs_create_from_current_position.
+
 (** A string that is not a key — a key with a path suffix, a character just
     outside the ranges, 64 characters that spell a path — is never found,
     whatever lies in or beside the directory. *)
@@ -481,12 +497,13 @@ Theorem C18_source_frozen :
   gen_key_shape_ok = true /\ gen_key_len = std_key_len /\ gen_key_ranges = std_key_ranges /\
   valid_key gen_key_len gen_key_ranges gen_tmp_dir_name = false /\
   gen_mem_put_copies = true /\ gen_mem_get_copies = true /\
+  gen_create_uses_reader_sequentially = [true; true; true] /\
   (gen_tmp_name_src = std_tmp_name_src /\ (16 <=? gen_tmp_name_bytes) = true /\ gen_tmp_in_dir = true) /\
   first_diff 0 frozen_texts = None.
 Proof.
   exact (conj gen_fs_create_frozen (conj gen_fs_commit_frozen (conj gen_key_shape
         (conj gen_key_len_frozen (conj gen_key_ranges_frozen (conj gen_tmp_dir_not_a_key
-        (conj gen_mem_put_copies_ok (conj gen_mem_get_copies_ok (conj gen_tmp_name_ok gen_texts_frozen))))))))).
+        (conj gen_mem_put_copies_ok (conj gen_mem_get_copies_ok (conj gen_create_reader_sequential (conj gen_tmp_name_ok gen_texts_frozen)))))))))).
 Qed.
 Print Assumptions C18_source_frozen.
 
@@ -613,3 +630,23 @@ Example C18_nonvacuous_round3 :
    snd (mem_ustep toyD true true st1 UPlain (MpOpen (HkM toyD [7; 8]))) = MRBytes [7; 8] /\
    snd (mem_ustep toyD true true st1 (UBoth 5) (MpOpen (HkM toyD [7; 8]))) = MRErr 5).
 Proof. vm_compute. repeat split. Qed.
+
+(** What consuming the reader from its current position is relied upon for.
+    A Create that rewinds seekable input to its ABSOLUTE start before staging
+    ([reader_after_absolute_rewind], NOT the deployed code), given a reader
+    standing at offset 1 of [9;1;2;3]: the key returned is that of the whole
+    stream, Open of it yields a byte the caller never supplied, and the key
+    of the content supplied ([1;2;3]) is absent — where the deployed skeleton
+    returns and stores exactly that. *)
+Example C18_absolute_rewind_refuted :
+  let whole := [9; 1; 2; 3] in
+  let sched := repeat (0%nat, false) 14 in
+  let bad := runs toyD [] [reader_after_absolute_rewind whole 1] sched in
+  let good := runs toyD [] [reader_at whole 1] sched in
+  map res (sthr bad) = [Some (ROk (Hk toyD whole))] /\
+  objs (sfs bad) = [(Hk toyD whole, whole)] /\
+  lookup_key (Hk toyD [1; 2; 3]) (objs (sfs bad)) = None /\
+  Hk toyD whole <> Hk toyD [1; 2; 3] /\
+  map res (sthr good) = [Some (ROk (Hk toyD [1; 2; 3]))] /\
+  objs (sfs good) = [(Hk toyD [1; 2; 3], [1; 2; 3])].
+Proof. vm_compute. repeat split. discriminate. Qed.
